@@ -14,6 +14,7 @@
 -/
 import Sbepp.Gen.Accept
 import Sbepp.Lemmas.C07Literals
+import Sbepp.Lemmas.C07Accept
 import Sbepp.Lemmas.C07Scope
 import Sbepp.Lemmas.C07Witness
 import Sbepp.Lemmas.C07WitnessScope
@@ -25,16 +26,18 @@ open Sbepp.Extracted
 /-! ## 1. Literal sites -/
 
 /-- every literal the generator emits for an accepted schema is well-formed at its site and denotes the
-    schema value — FALSE on the current tree -/
+    schema value — FALSE on the current tree.  Since ceb9ad3 / bf3e3ae the header-filler constants are no
+    counterexample any more (`header_fillers_fit`); what is left is exactly `literal_sites_fit_gap` -/
 def literal_sites_fit_full : Prop :=
   ∀ (s : SchemaDef) (x : SchemaTexts), Accepted s → ∀ site ∈ literalSites s x, site.verdict = .ok
 
+/-- witness: a `float` constant field whose `valueRef` enumerator is 16777217 -/
 theorem literal_sites_fit_full_false : ¬ literal_sites_fit_full := by
   intro h
-  have hb := wWideId_bad
+  have hb := wFloatRef_bad
   simp only [List.any_eq_true, beq_iff_eq] at hb
   obtain ⟨site, hs, hv⟩ := hb
-  have := h wWideId pkg wWideId_accepted site hs
+  have := h wFloatRef pkg wFloatRef_accepted site hs
   rw [hv] at this
   cases this
 
@@ -66,15 +69,67 @@ theorem literal_sites_fit_partial (s : SchemaDef) (x : SchemaTexts) :
     ∀ site ∈ literalSites s x, site.validated = true → site.plain = true → site.verdict = .ok :=
   fun site _ hv hp => site_fits site hv hp
 
+/-- **header_fillers_fit**: in an accepted schema every constant a header filler writes — schema id, template
+    id, version, the block length of every level, the numbers of groups and of data members where the header has
+    those counters — is braced into an integer (or char) header member that can hold it: a well-formed constant
+    expression of the schema value.  (Acceptance carries the validator rules of bf3e3ae and ceb9ad3, stated on the
+    header member the generator resolves and the block length `Schema.Resolve` computes.) -/
+theorem header_fillers_fit (s : SchemaDef) (x : SchemaTexts) (ha : Accepted s) :
+    ∀ site ∈ literalSites s x, site.isFiller = true → site.verdict = .ok :=
+  fun site hm hf =>
+    site_fits_checked site rendering_flags.1 rendering_flags.2.1 rendering_flags.2.2.1
+      (fillers_validated s x (acceptedB_parts s ha).2.2.2.2.2.2.1 site hm hf) (filler_not_unchecked site hf)
+
+/-- the range rule of this model is the validator's `representable member_prim (toString value)` (the
+    formulation `Spec.Rules.headerValueViols` uses and C08 proves equivalent to the validator model) -/
+theorem filler_range_is_representable (p : Prim) (n : Nat) (hf : p.isFloat = false) :
+    Spec.Rules.representable p.name (toString n) = inPrimRange p (n : Int) :=
+  representable_toString p n hf
+
 /-- **literal_sites_fit_checked**: every site that carries an explicit schema value or schema text — min / max /
     null, constants, enumerators, ids, versions, offsets, lengths, every description, semantic type, character
-    encoding, package, semantic version, string and character constant — is well-formed as soon as the value
-    passed sbeppc's own check; only the header-filler constants and `valueRef` enumerators, which sbeppc does
-    not check against the type they are braced into, are left out -/
+    encoding, package, semantic version, string and character constant, header-filler constant — is well-formed
+    as soon as the value passed sbeppc's own check; only `valueRef` enumerators braced into a `float` / `double`
+    constant type, which sbeppc checks as text with `strtof`, are left out -/
 theorem literal_sites_fit_checked (s : SchemaDef) (x : SchemaTexts) :
     ∀ site ∈ literalSites s x, site.validated = true → site.unchecked = false → site.verdict = .ok :=
   fun site _ hv hu =>
     site_fits_checked site rendering_flags.1 rendering_flags.2.1 rendering_flags.2.2.1 hv hu
+
+/-- **literal_sites_fit_gap**: the exact remaining gap of `literal_sites_fit_full`.  In an accepted schema a
+    site that is a header-filler constant or passed sbeppc's check of its value, and is nevertheless not a
+    well-formed literal of the schema value, is the enumerator of a `valueRef` braced into a floating-point
+    constant type (or the model's placeholder for a `valueRef` that does not resolve) -/
+theorem literal_sites_fit_gap (s : SchemaDef) (x : SchemaTexts) (ha : Accepted s) :
+    ∀ site ∈ literalSites s x, (site.isFiller = true ∨ site.validated = true) → site.verdict ≠ .ok →
+      ∃ p v, site.target = .prim p ∧ site.text = .enumRef v ∧ (p.isFloat = true ∨ v = none) := by
+  intro site hm hv hbad
+  have hval : site.validated = true := by
+    rcases hv with hf | hv
+    · exact fillers_validated s x (acceptedB_parts s ha).2.2.2.2.2.2.1 site hm hf
+    · exact hv
+  cases hu : site.unchecked with
+  | true => exact unchecked_shape site hu
+  | false => exact absurd (literal_sites_fit_checked s x site hm hval hu) hbad
+
+/-- **float_header_free**: in an accepted schema no header member the generated code or the runtime does
+    integer arithmetic with (block length, group size, data length) has a floating-point type -/
+theorem float_header_free (s : SchemaDef) (ha : Accepted s) : headerTypeProblems s = [] :=
+  headerTypeProblems_nil s (acceptedB_parts s ha).2.2.2.2.2.1
+
+/-- **duplicate_case_free**: in an accepted schema the generated `switch` over an enum has no two `case` labels
+    of the same value.  (Acceptance compares the enumerators as numbers / characters; the validator compares
+    their canonical texts — leading zeros stripped, `-0` = `0` — see CHECKS.) -/
+theorem duplicate_case_free (s : SchemaDef) (ha : Accepted s) : duplicateCaseProblems s = [] :=
+  duplicateCaseProblems_nil s (acceptedB_parts s ha).2.2.2.2.2.2.2
+
+/-- the former defect witnesses — template id 70000 with a `uint16` header member, a group counting in `float`,
+    enumerators `1` and `01` — are still predicted ill-formed by the model and are rejected by the acceptance
+    conditions -/
+theorem fixed_header_classes :
+    (¬ Accepted wWideId ∧ (literalSites wWideId pkg).any (fun site => site.verdict == .bad) = true) ∧
+    (¬ Accepted wFloatHdr ∧ (headerTypeProblems wFloatHdr).isEmpty = false) ∧
+    (¬ Accepted wDupEnum ∧ (duplicateCaseProblems wDupEnum).isEmpty = false) := fixed_header_witnesses
 
 /-- non-vacuity: an accepted schema with explicit boundary values, a `"` enumerator, a padded string constant,
     nested groups: all of its sites are validated, plain, and (hence) well-formed -/
@@ -268,9 +323,7 @@ theorem scope_conflict_free_partial (s : SchemaDef) (ha : Accepted s) (ds : List
     (h2 : ∀ n ∈ allNames s, hazardName n = false) :
     ScopeConflictFree s ∧ nameProblems s = [] := by
   have hn : namesAccepted s = true := by
-    unfold Accepted acceptedB at ha
-    simp only [Bool.and_eq_true] at ha
-    exact ha.1.1.1.1
+    exact (acceptedB_parts s ha).1
   have hnil := nameProblems_nil s ds hds h1 h2
   refine ⟨⟨fun st h => (detail_types_distinct _ st h).1, fun st h => (detail_messages_distinct _ st h).1,
     keywords_rejected s hn, ?_⟩, hnil⟩
@@ -287,9 +340,7 @@ theorem public_paths_resolve (s : SchemaDef) (ha : Accepted s) (ds : List NsDecl
     (∀ e ∈ s.types, resolvePublic ds "types" e.name = some ("types." ++ e.name)) ∧
     (∀ m ∈ s.messages, resolvePublic ds "messages" m.name = some ("messages." ++ m.name)) := by
   have hu : uniqueAccepted s = true := by
-    unfold Accepted acceptedB at ha
-    simp only [Bool.and_eq_true] at ha
-    exact ha.1.1.1.2
+    exact (acceptedB_parts s ha).2.1
   unfold uniqueAccepted at hu
   simp only [Bool.and_eq_true] at hu
   have ht : (s.types.map Elem.name).Nodup := by
